@@ -16,6 +16,7 @@ import (
 	"flag"
 	"fmt"
 	"go/ast"
+	"go/build/constraint"
 	"go/importer"
 	"go/parser"
 	"go/printer"
@@ -133,13 +134,31 @@ func main() {
 	var files []*ast.File
 	for _, e := range ents {
 		n := e.Name()
-		if !strings.HasSuffix(n, ".go") || strings.HasSuffix(n, "_test.go") || strings.HasPrefix(n, "verif_") {
+		if !strings.HasSuffix(n, ".go") || strings.HasSuffix(n, "_test.go") {
 			continue
 		}
 		f, err := parser.ParseFile(fset, filepath.Join(*src, n), nil, parser.ParseComments)
 		if err != nil {
 			fmt.Fprintln(os.Stderr, "PARSE", err)
 			os.Exit(3)
+		}
+		// the model is of the library as shipped: build constraints are evaluated with every
+		// tag off, so files guarded by `verif` (hooks) are left out
+		excluded := false
+		for _, cg := range f.Comments {
+			if cg.Pos() > f.Package {
+				break
+			}
+			for _, c := range cg.List {
+				if constraint.IsGoBuild(c.Text) {
+					if x, err := constraint.Parse(c.Text); err == nil && !x.Eval(func(tag string) bool { return false }) {
+						excluded = true
+					}
+				}
+			}
+		}
+		if excluded {
+			continue
 		}
 		files = append(files, f)
 	}
